@@ -233,6 +233,69 @@ func runC05(res *lp.Result) {
 						}
 					}
 					ask("frame hdr "+hx(all), fmt.Sprintf("ok %d %s", hl, show.Header(full.Header)), id)
+					// 3a. the header is what is on the wire, whoever decodes it and whatever is decoded after it: DecodeHeader and
+					// DecodeFrame agree on it, decoding the body (or converting the raw frame) leaves it alone, and the operations that
+					// do not look inside the body (DecodeHeader, DecodeRawFrame, DecodeRawBody, DiscardBody — what a pass-through proxy
+					// uses) give the same results on a codec that has no compressor at all
+					{
+						br := bytes.NewReader(all)
+						if h, err := cs.codec.DecodeHeader(br); err == nil {
+							before := show.Header(h)
+							if before != show.Header(full.Header) || int(h.BodyLength) != len(enc)-hl {
+								viol("DecodeHeader and DecodeFrame disagree on the header of the same bytes", id+" bytes="+hx(enc), before, show.Header(full.Header))
+							}
+							if _, err := cs.codec.DecodeBody(h, br); err == nil && show.Header(h) != before {
+								viol("DecodeBody changes the header it was given", id+" bytes="+hx(enc), show.Header(h), before)
+							}
+						}
+						if raw != nil {
+							before := show.Header(raw.Header)
+							if _, err := cs.codec.ConvertFromRawFrame(raw); err == nil && (show.Header(raw.Header) != before || int(raw.Header.BodyLength) != len(raw.Body)) {
+								viol("ConvertFromRawFrame changes the raw frame it was given", id+" bytes="+hx(enc), show.Header(raw.Header), before)
+							}
+						}
+						plainCodec := frame.NewRawCodec()
+						for _, path := range []string{"header", "raw", "rawbody", "discard-seek", "discard-copy"} {
+							br := bytes.NewReader(all)
+							var src io.Reader = br
+							if path == "discard-copy" {
+								src = noSeek{br}
+							}
+							what := ""
+							if path == "raw" {
+								if r2, err := plainCodec.DecodeRawFrame(src); err != nil {
+									what = "DecodeRawFrame fails: " + firstWords(err.Error())
+								} else if raw != nil && (!bytes.Equal(r2.Body, raw.Body) || show.Header(r2.Header) != show.Header(full.Header)) {
+									what = "DecodeRawFrame gives a different raw frame"
+								}
+							} else if h, err := plainCodec.DecodeHeader(src); err != nil {
+								what = "DecodeHeader fails: " + firstWords(err.Error())
+							} else if show.Header(h) != show.Header(full.Header) {
+								what = "DecodeHeader gives a different header"
+							} else {
+								switch path {
+								case "header":
+									br.Seek(int64(len(enc)), io.SeekStart)
+								case "rawbody":
+									if b, err := plainCodec.DecodeRawBody(h, src); err != nil {
+										what = "DecodeRawBody fails: " + firstWords(err.Error())
+									} else if raw != nil && !bytes.Equal(b, raw.Body) {
+										what = "DecodeRawBody gives a different body"
+									}
+								default:
+									if err := plainCodec.DiscardBody(h, src); err != nil {
+										what = "DiscardBody fails: " + firstWords(err.Error())
+									}
+								}
+							}
+							if what == "" && br.Len() != len(trailer) {
+								what = fmt.Sprintf("%d bytes left unread, %d follow the frame", br.Len(), len(trailer))
+							}
+							if what != "" {
+								viol("partial operation ("+path+") by a codec without compressor on a frame of a "+cs.name+" connection: "+what, id+" bytes="+hx(enc), "", "")
+							}
+						}
+					}
 					// 3b. the same paths over other kinds of io.Reader (a *bytes.Buffer, a non-seekable source that delivers a few
 					// bytes per Read) holding TWO copies of the frame: each path must consume exactly the first frame and give the
 					// same result as over a *bytes.Reader
